@@ -1167,3 +1167,32 @@ impl<T> Drop for MirroredVecDequeRef<'_, T> {
         // required for drop order
     }
 }
+
+/// Verification hooks (add-only, compiled only with `--cfg remoc_verif`).
+#[cfg(remoc_verif)]
+#[allow(missing_docs, private_interfaces, dead_code, clippy::all)]
+pub mod verif_hooks {
+    use super::*;
+
+    /// The mirror state machine (`MirroredVecDequeInner`) without its background task.
+    pub struct VMirror<T>(MirroredVecDequeInner<T>);
+
+    impl<T: Clone> VMirror<T> {
+        pub fn new(v: VecDeque<T>, complete: bool, done: bool, max_size: usize) -> Self {
+            VMirror(MirroredVecDequeInner { v, complete, done, error: None, max_size })
+        }
+
+        pub fn handle_event(&mut self, event: VecDequeEvent<T>) -> Result<(), RecvError> {
+            self.0.handle_event(event)
+        }
+
+        pub fn contents(&self) -> &VecDeque<T> {
+            &self.0.v
+        }
+
+        /// (complete, done)
+        pub fn flags(&self) -> (bool, bool) {
+            (self.0.complete, self.0.done)
+        }
+    }
+}
